@@ -189,6 +189,139 @@ pub fn case_strategy() -> BoxedStrategy<Case> {
         .boxed()
 }
 
+// ------------------------------------------------------------------------------------------
+// two instances: the receiver holds an older instance (announcing A only) and a newer one
+// (announcing B only), both received while valid; each object is judged by the instance that
+// announces it
+
+#[derive(Debug, Clone, Serialize, Deserialize)]
+pub struct TwoCase {
+    pub duration_s: u64,
+    /// second publication this many seconds after the first
+    pub second_after_s: u64,
+    pub sct: bool,
+    pub check: bool,
+    pub offset_s: i64,
+    /// arrival of A's and B's packets, ms after the first publication (sender clock)
+    pub objects_at_ms: u64,
+}
+
+pub fn run_two(c: &TwoCase) -> CaseResult {
+    let mut info = CaseInfo::new();
+    let mut sender = SenderSpec::simple(OtiSpec { scheme: Scheme::NoCode, e: 4096, b: 8, parity: 0, inband_fti: true, al: 1, nsub: 1 });
+    sender.fdt_duration_s = c.duration_s;
+    sender.inband_sct = c.sct;
+    let mut drv = SenderDriver::new(&sender)?;
+    let mut oa = ObjSpec::simple(40, 191);
+    oa.location = "file:///c19/a".into();
+    let mut ob = ObjSpec::simple(40, 192);
+    ob.location = "file:///c19/b".into();
+    let (toi_a, bytes_a) = drv.add(&oa)?;
+    drv.publish()?;
+    drv.drain(10_000)?;
+    let first_len = drv.log.len();
+    drv.advance(Duration::from_secs(c.second_after_s));
+    // A has been sent once and is gone from the sender: the second instance announces B only
+    let (toi_b, bytes_b) = drv.add(&ob)?;
+    drv.publish()?;
+    drv.drain(10_000)?;
+    let (mut fdt1, mut fdt2, mut a, mut b) = (vec![], vec![], vec![], vec![]);
+    for (i, r) in drv.log.iter().enumerate() {
+        if let Some((bytes, d)) = r.pkt() {
+            if d.lct.toi == 0 {
+                if i < first_len { fdt1.push(bytes.clone()) } else { fdt2.push(bytes.clone()) }
+            } else if d.lct.toi == toi_a {
+                a.push(bytes.clone());
+            } else if d.lct.toi == toi_b {
+                b.push(bytes.clone());
+            }
+        }
+    }
+    if fdt1.is_empty() || fdt2.is_empty() || a.is_empty() || b.is_empty() {
+        return Err("HARNESS: the two-instance session did not produce both instances and both objects".into());
+    }
+    let s0 = t0();
+    let rclock = |sender_ms: u64| shift(s0, c.offset_s as i128 * 1000 + sender_ms as i128);
+    let spec = RxSpec { expiry_check: c.check, cleanup_each_push: true, ..RxSpec::default_once() };
+    let mut rx = Rx::new(&spec, Faults::none());
+    for p in &fdt1 {
+        rx.push(p, rclock(0));
+    }
+    for p in &fdt2 {
+        rx.push(p, rclock(c.second_after_s * 1000));
+    }
+    let at = c.objects_at_ms.max(c.second_after_s * 1000);
+    for p in &a {
+        rx.push(p, rclock(at));
+    }
+    for p in &b {
+        rx.push(p, rclock(at));
+    }
+    let ws = rx.mon.writers();
+    drop(rx);
+    // estimate of the sender clock at `at` (ms after the first publication)
+    let est: i128 = if c.sct { at as i128 } else { at as i128 + c.offset_s as i128 * 1000 };
+    let exp1: i128 = c.duration_s as i128 * 1000;
+    let exp2: i128 = (c.second_after_s + c.duration_s) as i128 * 1000;
+    // both instances must have been valid on arrival (estimate at their own arrival)
+    let est_f1: i128 = if c.sct { 0 } else { c.offset_s as i128 * 1000 };
+    let est_f2: i128 = if c.sct { c.second_after_s as i128 * 1000 } else { c.second_after_s as i128 * 1000 + c.offset_s as i128 * 1000 };
+    if c.check && (est_f1 >= exp1 - 2000 || est_f2 >= exp2 - 2000 || est_f1 < -(1 << 40)) {
+        return Ok(CaseInfo::excluded("domain: an instance is not clearly valid on arrival"));
+    }
+    if (est - exp1).abs() <= 2000 || (est - exp2).abs() <= 2000 {
+        return Ok(CaseInfo::excluded("domain: within +-2 s of Expires (granularity excluded by the property)"));
+    }
+    for (name, toi, bytes, exp) in [("A (announced by the older instance only)", toi_a, &bytes_a, exp1), ("B (announced by the newer instance only)", toi_b, &bytes_b, exp2)] {
+        let mine: Vec<_> = ws.iter().filter(|w| w.toi == toi).collect();
+        let expect = !c.check || est < exp;
+        let delivered = mine.iter().any(|w| w.completed() && w.data == **bytes);
+        let ctx = format!(
+            "duration {} s, second publication after {} s, SCT {}, expiry check {}, receiver clock offset {} s, objects arrive {} ms after the first publication (estimate of the sender clock {} ms; instance 1 expires at {} ms, instance 2 at {} ms); writers {:?}",
+            c.duration_s, c.second_after_s, c.sct, c.check, c.offset_s, at, est, exp1, exp2, mine.iter().map(|w| w.trace()).collect::<Vec<_>>()
+        );
+        if expect && !delivered {
+            return Err(format!("object {} must be delivered (its instance is unexpired on the sender's clock, or the check is off) but was not: {}", name, ctx));
+        }
+        if !expect && !mine.is_empty() {
+            return Err(format!("object {} is announced only by an instance that is expired on the sender's clock, yet a writer saw callbacks: {}", name, ctx));
+        }
+    }
+    let split = c.check && est >= exp1 && est < exp2;
+    info.nt(split);
+    info.label_if(split, "older instance expired, newer still valid");
+    info.label_if(c.check && est >= exp2, "both expired");
+    info.label_if(!c.check || est < exp1, "both valid or check off");
+    info.label_if(c.sct, "SCT present");
+    Ok(info)
+}
+
+fn two_strategy() -> BoxedStrategy<TwoCase> {
+    (
+        prop_oneof![Just(10u64), Just(30), Just(3600), 8u64..5000],
+        any::<bool>(),
+        prop_oneof![5 => Just(true), 1 => Just(false)],
+        prop_oneof![3 => Just(0i64), 2 => -3i64..3, 2 => -100_000i64..100_000, 1 => Just(31_557_600i64 * 10), 1 => Just(-31_557_600i64 * 10)],
+        (0u64..1000, 0u8..4, -8000i64..8000),
+    )
+        .prop_map(|(duration_s, sct, check, offset_s, (frac, mode, around))| {
+            // the second publication falls inside the validity of the first one
+            let second_after_s = 3 + frac * duration_s.saturating_sub(6) / 1000;
+            let est_shift: i64 = if sct { 0 } else { offset_s.saturating_mul(1000) };
+            let exp1 = duration_s as i64 * 1000;
+            let exp2 = (second_after_s + duration_s) as i64 * 1000;
+            let at: i64 = match mode {
+                0 | 1 => exp1 - est_shift + around + 4000, // shortly after the older instance expired
+                2 => (exp1 + exp2) / 2 - est_shift,        // between the two expiries
+                _ => exp2 - est_shift + around + 4000,     // around the newer one's expiry
+            };
+            // without SCT only offsets that keep both instances valid on arrival are useful
+            let offset_s = if sct { offset_s } else { offset_s.clamp(-(2 * duration_s as i64), 2) };
+            TwoCase { duration_s, second_after_s, sct, check, offset_s, objects_at_ms: at.max(0) as u64 }
+        })
+        .boxed()
+}
+
 pub fn run(eng: &mut Engine) {
     eng.assume("receiver's estimate of the sender clock at time t: t - (arrival of the FDT instance - its SCT) when the instance carried EXT_TIME, else t; an instance is unexpired while estimate < Expires; cases within 2 s of Expires are excluded as the property says");
     eng.assume("decisive instants: the arrival of the FDT instance and, when the object comes later, the arrival of its first packet (that is when delivery starts); the whole object is pushed at one instant");
@@ -202,11 +335,21 @@ pub fn run(eng: &mut Engine) {
         case_strategy,
         run_case,
     );
+    eng.generated(
+        PartCfg::new(
+            "two-instances",
+            "the receiver holds two instances received while valid: the older announces object A only, the newer (published 3 s .. duration-3 s later) object B only; both objects arrive at one instant placed shortly after the older instance expired, between the two expiries, or around the newer one's; SCT present/absent, clock offsets, check on/off; each object must be delivered iff ITS instance is unexpired on the estimated sender clock, and see no writer callback otherwise; non-trivial = the older instance is expired and the newer still valid; distinct by case",
+            tier.pick(60_000, 1_500_000),
+        ),
+        two_strategy,
+        run_two,
+    );
 }
 
 pub fn replay(part: &str, case: &Value) -> Option<CaseResult> {
     match part {
         "expiry" | "pinned" => Some(run_case(&serde_json::from_value(case.clone()).ok()?)),
+        "two-instances" => Some(run_two(&serde_json::from_value(case.clone()).ok()?)),
         _ => None,
     }
 }
